@@ -175,3 +175,9 @@ Example C14_views_inhabited :
   -5937294070513664 = -86399 * 2 ^ 36 /\
   cds_datetime_us {| cdays := 4382; cms := 1000 |} = -86399000000.
 Proof. exact cds_views_example. Qed.
+
+(* ms_of_today(86399.9995) = 86400000 *)
+Theorem C14_ms_of_today_range_refuted :
+  exists s, fl_normal s /\ 0 < fm s /\ cds_ms_of_today s = 86400000.
+Proof. exact cds_ms_of_today_range_refuted. Qed.
+Print Assumptions C14_ms_of_today_range_refuted.
